@@ -19,10 +19,10 @@ package importer
 
 //@ scan[C09.importer.cache.users] C09 fieldwriters LocalImporter.codeCache: NewLocalImporter Import
 
-// Importers do not touch the VM's mutexes (assumed for every implementation).
+// Importers do not touch the VM's mutexes or registers (assumed for every implementation).
 //@ func (Importer).Import
 //@ trusted
-//@ modcomps H_ E_ M G_ C_
+//@ modcomps H_compiler_ H_object_ H_importer_ H_ast_ H_parser_ H_lexer_ E_ M G_ C_
 
 // ---- C14: which file an import reads ----------------------------------------------------------------------------
 // The only file names tried are Join(dir, name+ext) for the configured extensions, in order; the first that can be
